@@ -8,6 +8,7 @@ import (
 	"reflect"
 	"strconv"
 	"strings"
+	"unicode/utf8"
 )
 
 var imports []string
@@ -634,7 +635,7 @@ func (s *JavaFullListener) EnterExpression(ctx *parser.ExpressionContext) {
 			StartLine:         identifier.GetLine(),
 			StartLinePosition: identifier.GetColumn(),
 			StopLine:          identifier.GetLine(),
-			StopLinePosition:  identifier.GetColumn() + len(methodName),
+			StopLinePosition:  identifier.GetColumn() + utf8.RuneCountInString(methodName),
 		}
 
 		jMethodCall := &core_domain.CodeCall{
